@@ -62,6 +62,8 @@ def exercise(text, mode, big_stack=False, no_debug_ops=False):
                     if back.name != op.name or list(back.args) != canon:
                         problem = "{} is emitted as 0x{:04x}, which is {}".format(op, w, back)
                         break
+            elif any(o.name == "__EVAL" for o in prog.code):
+                pass  # user __eval: arbitrary Python, reported as a program error by design (outside the property)
             else:
                 stage = "running"
                 vm = V.VirtualMachine(progrun.make_settings(mode=mode, big_stack=big_stack, throttle=400))
